@@ -1568,7 +1568,8 @@ impl Exec {
                 // compact() ends when a pass moves nothing: called again at once it has nothing to do (Compact.tla: the end
                 // state is a fixpoint)
                 let (len1, syncs1) = (self.store.len(), self.store.syncs());
-                let again = if r.get("ok").is_some() {
+                // (not in runs with injected storage failures: one step of the script is one call there)
+                let again = if r.get("ok").is_some() && !self.store.fault_configured() {
                     Some(match self.db.as_mut().unwrap().compact() {
                         Ok(b) => ok(json!(b)),
                         Err(e) => er(e),
